@@ -180,8 +180,8 @@ def lib_core():
         "kinds": {"fA": fA, "Ixy": Ixy},
         "import_names": ["f", "k", "bad name"],
         "export_names": ["e1", "e2", "bad name"],
-        "def_names": ["e1", "t1", "bad name"],
-        "valid_names": ["f", "k", "e1", "e2", "t1"],
+        "def_names": ["e1", "t1", "t2", "bad name"],
+        "valid_names": ["f", "k", "e1", "e2", "t1", "t2"],
         # definable types: id -> (class, deps)
         "deftypes": {"tb": ("value", []), "td": ("value", ["tb"]), "tc": ("value", ["tb", "td"]), "tr": ("resource", [])},
     }
